@@ -75,6 +75,20 @@ def default_val(t):
     if t[0] == 'tup': return '(' + ', '.join(default_val(x) for x in t[1]) + ')'
     raise Abort(f"no default for {t}")
 
+COQ_RESERVED = {'end', 'in', 'fun', 'match', 'with', 'return', 'let', 'if', 'then', 'else', 'fix', 'cofix', 'forall', 'exists',
+                'Type', 'Prop', 'Set', 'as', 'at', 'using', 'where', 'struct', 'for'}
+
+class _Rename(ast.NodeTransformer):
+    def visit_Name(self, node):
+        if node.id in COQ_RESERVED: node.id = node.id + '_'
+        return node
+    def visit_arg(self, node):
+        if node.arg in COQ_RESERVED: node.arg = node.arg + '_'
+        return node
+    def visit_keyword(self, node):
+        self.generic_visit(node)
+        return node
+
 class Func:
     def __init__(self, qual, coq, params, ret, raises=False, gen=False, node=None, cls=None, free=()):
         self.qual, self.coq, self.params, self.ret = qual, coq, params, ret
@@ -183,7 +197,7 @@ class Translator:
     # ---------------------------------------------------------- functions
     def declare(self, mod, qual, sig=None, raises=False, gen=False, coq=None, free=()):
         """sig: dict param->type string, 'return'->type string (overrides annotations)."""
-        node = mod.find_def(qual)
+        node = _Rename().visit(mod.find_def(qual))
         parts = qual.split('.')
         cls = parts[0] if parts[0] in mod.classes else None
         sig = sig or {}
@@ -608,6 +622,9 @@ class Ctx:
                 return self.construct(self.f.cls, e)
             if n in tr.records:
                 return self.construct(n, e)
+            if f"{self.f.qual}.{n}" in tr.funcs:
+                f = tr.funcs[f"{self.f.qual}.{n}"]
+                return self.mk_call(f, self.args_for(f, e), want)
             if n in tr.funcs:
                 f = tr.funcs[n]
                 return self.mk_call(f, self.args_for(f, e), want)
@@ -820,6 +837,9 @@ class Ctx:
         if isinstance(s, ast.Expr) and isinstance(s.value, ast.Constant) and isinstance(s.value.value, str):
             return self.block(rest)
         if isinstance(s, ast.Delete): return self.block(rest)
+        if isinstance(s, ast.FunctionDef):
+            if f"{f.qual}.{s.name}" in self.tr.funcs: return self.block(rest)
+            abort(s, "nested function not declared for translation")
         if isinstance(s, ast.Pass): return self.block(rest)
         if isinstance(s, ast.Return):
             if f.gen:
